@@ -338,7 +338,8 @@ Lemma rename_failure_unchanged st from to fie st' :
   f_rename st from to fie = (st', false) -> st' = st.
 Proof.
   unfold f_rename. destruct fie.
-  - destruct (k_open st to true false true true false) as [st1 [f|e]] eqn:O.
+  - destruct (k_lstat st from) as [k0|]; [|intro H; inversion H; auto].
+    destruct (k_open st to true false true true false) as [st1 [f|e]] eqn:O.
     + (* the placeholder was created *)
       unfold k_open in O. simpl negb in O.
       destruct (resolve st false to) as [e0|d nm [[| |t]|]|d dot] eqn:R; try discriminate.
